@@ -45,10 +45,10 @@ def run(ctx):
     ctx.harness(binary, ["pack-record", tpath, str(runs), str(max_files)] + ([] if ctx.quick() else ["big"]))
     events = vlib.read_ndjson(tpath)
     rep = cc.validate(ctx, "Trace_Fe9Pack", tpath, len(events))
-    for i in rep["bad"]:
-        ev = events[i - 1]
+    for b in rep["bad"]:
+        i, ev = b["i"], events[b["i"] - 1]
         small = len(ev["bytes"]) <= 20000
-        ctx.violation({"dir": "impl->spec", "files": len(ev["value"]), "ser": ev["ser"][:200],
+        ctx.violation({"dir": "impl->spec", "failed": b["why"], "files": len(ev["value"]), "ser": ev["ser"][:200],
                        "lens": [len(f[1]) for f in ev["value"]][:12]},
                       {"index": i, "event": ev if small else {"files": len(ev["value"]), "ser": ev["ser"]}})
     ctx.traces += len(events)
